@@ -641,7 +641,7 @@ def check_matching_pairs(rep, repo, f):
         return
     from ..lints import index_bound_violations
     for line, txt in index_bound_violations(f):
-        rep.fail('C07.R1', f.where, 'a project that is not on the student\'s list yields None: the search stops at the end of the row', got=txt + ' (IndexError one past the end)',
+        rep.fail('C07.R1', f.where, 'the search over the student\'s row examines every entry and stops at the end of the row (a project that is not on the list yields None)', got=txt,
                  want='index < len(row)', construct='search reads one past the end of the row', loc='%s:%d' % (f.relpath, line))
     it = Interp(repo)
     try:
